@@ -237,6 +237,9 @@ func (e *BitEval) eval(v ssa.Value, w int) bitvec {
 		}
 		return topVec(w)
 	case *ssa.Phi:
+		if cv := canonPhi(x); cv != ssa.Value(x) {
+			return e.Eval(cv)
+		}
 		var acc bitvec
 		for _, ed := range x.Edges {
 			ev := e.Eval(ed)
